@@ -8,6 +8,12 @@ os.makedirs(dst, exist_ok=True)
 for f in ("patch.diff", "demo.diff", "README.md", "confirm.log"):
     shutil.copy(os.path.join(src, f), os.path.join(dst, f))
 log = open(os.path.join(dst, "confirm.log")).read()
+sec = log.split("== existing tests with patch")[1].split("== demo with patch")[0]
+assert "test result: FAILED" not in sec and "test result: ok" in sec, "existing tests did not all pass with the patch"
+demo_with = log.split("== demo with patch (expect FAIL)")[1].split("== demo without patch")[0]
+demo_without = log.split("== demo without patch (expect PASS)")[1]
+assert "FAILED" in demo_with, "demo does not fail with the patch"
+assert "test result: ok" in demo_without and "FAILED" not in demo_without, "demo does not pass without the patch"
 meta = {
     "property": pid,
     "variant": v,
